@@ -104,7 +104,7 @@ def _job(args):
     out = dict(n=0, nontrivial=0, stats={}, violations=[], disagreements=[], pairs=[], samples=[])
     for it in range(n):
         root, dirs, files = scan.gen_tree(rng, max_depth=4)
-        scan.gen_imports(rng, dirs, files, externals=scan.EXTERNALS, nested=False)
+        scan.gen_imports(rng, dirs, files, externals=scan.EXTERNALS, nested=True)
         pyfiles = [f for f, v in files.items() if v["py"]]
         # imports of the root package itself, of names that are not modules, and relative imports leaving module_path
         for f in pyfiles:
